@@ -22,6 +22,11 @@ def gen_spectrum(rng, nq=None, natoms=None, hostile=None):
         weights[int(rng.integers(0, nq))] = 1e6
     elif hostile == "high-frequencies":
         w0 = rng.uniform(1300, 1500, size=(nq, np_))
+    elif hostile == "weights-as-rounded-fractions":
+        # Brillouin-zone fractions printed with three decimals: they sum to 1 only approximately (0.992 .. 1)
+        m_ = rng.integers(1, 9, size=nq).astype(float)
+        weights = numpy.floor(m_ / m_.sum() * 1000) / 1000        # truncated, as a fixed-width print does
+        weights[weights == 0] = 0.001
     v0 = float(rng.uniform(60, 900))
     return Spectrum(v0, w0, g0, a, b, weights, natoms)
 
